@@ -48,6 +48,7 @@ CLAIMED.update({
            'exactly the covered elements, parents[k] = list of element k, starts[i] = position of list i in what is handed over; results come back one per list; IndexedOptionArray64::reduce_next at the leaf level; '
            'Content::reduce axis normalisation (any axis, any depth, branching or not); every Reducer*::apply_<dtype> of Reducer.cpp (10 reducers x bool, 8 integer types, float32/64, datetime/timedelta for order reducers) from its IR '
            'together with the dispatched kernel on symbolic data with a concrete group assignment including an empty group: documented output type, fold from the identity, a member that no member beats, first such position, -1 / identity for an empty group; '
+           'ListOffsetArray64::reduce_next, non-local branch (reduction across the lists of an outer group), from its IR with all eight kernels it wires: every covered element handed on once, equal group numbers exactly for equal (outer group, position), starts = first handed position of a group, shifts = earlier lists of the group too short for the position, one result per position of the longest list; '
            'NumpyArray::reduce_next (the leaf of every reduction) for all reducers: answer labelled with the documented dtype and item size, positions reported relative to the list (minus starts, plus shifts), mask_identity = None exactly for empty groups, keepdims = a regular dimension of size 1.',
            'Outside: record/union nodes, axis=None, complex types, NaN ordering, explicit `initial=`; prod of floats for groups of more than 2. '
            'Bounds: <= 3/4 elements, <= 2/3 groups, non-local lists <= 3 of length <= 2/3 (lengths case-split), products with the group assignment case-split.',
